@@ -164,6 +164,9 @@ func TestClusterFaults(t *testing.T) {
 		if !ok {
 			return
 		}
+		if in.Mode == "once" {
+			return
+		}
 		for k := 1 + (vt.EnvInt("VERIF_SEED", 1) % in.Every); ; k += in.Every {
 			if in.Mode == "crash" {
 				if k > K+1 {
